@@ -1,5 +1,5 @@
 """C10-H2-NAME-TRAILING-LF: HTTP2Connection.putheader accepts a header name ending in LF.
-run: /venv/bin/python /verif/findings/repro_C10_h2_name_lf.py      expected with the defect: [(b'x-a\\n', b'v')] True
+run: /venv/bin/python /verif/findings/repro_C10_h2_name_lf.py   with the defect: prints [(b"x-a\\n", b"v")] True; repaired in /repo by 293c68f: raises ValueError
 patch: http2/connection.py  RE_IS_LEGAL_HEADER_NAME = re.compile(rb"^[!#$%&'*+\\-.^_`|~0-9a-z]+\\Z")   (or .fullmatch in _is_legal_header_name)
 """
 from urllib3.http2.connection import HTTP2Connection, _is_legal_header_name
